@@ -15,7 +15,7 @@ type c10Case struct {
 
 var c10Lexemes = []string{"a", "<", ">", "&", `"`, "'", ";", "#", "&amp;", "&lt;", "&#34;", "&#39;", "&quot;", "é", "\n", `\`}
 
-var c10Contexts = []string{"print", "concat", "var", "array", "ternary", "raw", "raw-concat", "raw-var", "concat-var", "insert-arg", "component-arg", "component-arg-raw", "insert-block", "slot-body"}
+var c10Contexts = []string{"print", "concat", "var", "array", "ternary", "raw", "raw-concat", "raw-var", "concat-var", "insert-arg", "component-arg", "component-arg-raw", "insert-block", "slot-body", "raw-then-print", "raw-twice", "print-raw-print"}
 
 // c10Literal returns the literal's text and its source form; ok=false for contents that cannot
 // be written (a backslash before a quote or at the end).
@@ -80,6 +80,13 @@ func c10Check(cs c10Case) (ok bool, sig, expected, observed string) {
 	case "raw-var":
 		src = "{{ v = " + lit + " }}{{ v.raw() }}"
 		raw = true
+	case "raw-then-print": // raw() on a stored value, then the value itself: still escaped
+		src = "{{ v = " + lit + " }}{{ w = v.raw() }}{{ v }}"
+	case "raw-twice":
+		src = "{{ v = " + lit + " }}{{ w = v.raw() }}{{ v.raw() }}"
+		raw = true
+	case "print-raw-print":
+		src = "{{ a = [" + lit + "] }}{{ w = a[0].raw() }}{{ a[0] }}"
 	case "concat-var":
 		src = "{{ v = " + lit + ` }}{{ "<" + v + v }}`
 		want = "<" + text + text
